@@ -282,6 +282,10 @@ inductive MapFn where
   | dbl (k : Nat)              -- callable `lambda a: a.k * 2 + 1`
   | plus (k : Nat) (d : Int)   -- method name "plus<k>" with argument d: returns `self.k + d`
   | nosuch                     -- a method name no agent has
+  | stat (d : Int)             -- the name of a `@staticmethod` "base": `agent.base(d)` = `2 * d`
+  | cls (d : Int)              -- the name of a `@classmethod` "rank": `agent.rank(d)` = index of the agent's exact class + d
+  | own (k : Nat) (d : Int)    -- the name "own<k>" of a callable stored on each *instance* (the class has a decoy of the
+                               -- same name): `agent.own<k>(d)` = `3 * agent.k + d`
 deriving Repr, DecidableEq
 
 /-- `AgentSet.map(method, *args)` (no churn here; C04 covers mutation during the call) -/
@@ -291,6 +295,12 @@ def map (st : Store) (s : Nat) : MapFn → Except Err (List Int)
   | .plus k d => match (st.get s).mapM (fun i => (st.agent i).attr k) with
     | none => .error .attr | some vs => .ok (vs.map (· + d))
   | .nosuch => if st.get s = [] then .ok [] else .error .attr
+  -- `getattr(agent, name)(*args)` for every member: whatever the attribute lookup on the *agent* yields is called with
+  -- the arguments alone (a staticmethod gets no agent, a classmethod the agent's class, an instance attribute wins)
+  | .stat d => .ok ((st.get s).map fun _ => 2 * d)
+  | .cls d => .ok ((st.get s).map fun i => ((st.agent i).ty : Int) + d)
+  | .own k d => match (st.get s).mapM (fun i => (st.agent i).attr k) with
+    | none => .error .attr | some vs => .ok (vs.map (3 * · + d))
 
 /-- `agentset[i]` -/
 def item (st : Store) (s : Nat) (i : Int) : Except Err Nat :=
